@@ -19,3 +19,11 @@ reg("C05", "exploration",
     "Model-based check of the %define namespace: every sequence of up to 3/4 steps over a 41-symbol alphabet (4 spellings of 3 names x 8 values, illegal names, 5 references, include begin/end) and up to 5/6 steps over a 12-symbol core alphabet, rendered into a main resource and up to 2 levels of included resources, loaded twice against one schema object and followed by a use-without-define probe; Hypothesis sequences up to 8 steps with arbitrary values. Complete for the enumerated sequences.",
     "Trusted: zcv/model.py ref_read/ref_subst (one namespace, expansion at definition time, redefinition compared on expanded values). In-memory resources via an overridden ConfigLoader.openResource. U11 (names legal only after lower-casing) not compared.",
     "exhaustive enumeration of directive sequences + Hypothesis sequences vs. reference namespace model; repeated-load (history) comparison")
+reg("C01", "exploration",
+    "Model-based differential check of acceptance: random schemas of the generated family (as a plain-data AST rendered to XML) and six schema-guided texts each with 0..3 injected deviations; the verdict of an independently written reference loader (ACCEPT / REJECT by a named rule / UNSPECIFIED) is compared with what ZConfig.loadConfigFile does. Every semantic rule class of the statement is counted in the evidence.",
+    "Trusted: zcv/refload.py, zcv/model.py, zcv/refdt.py (DESIGN appendix A). Zones U1-U4 (declaration-order dependent resolutions) are executed but not compared. Sampling, not exhaustive.",
+    "random generation of schemas and schema-guided faulty texts vs. reference loader (model-based differential oracle)")
+reg("C02", "exploration",
+    "For every text of the C01 campaign that is accepted, the digest of the returned value tree (attribute sets, converted values/defaults/None, multikey and multisection order, wildcard mappings, section datatype applied once, type and lower-cased name) is compared with the tree built by the reference loader with reference conversions; an aliasing probe mutates every returned list/dict and reloads.",
+    "Trusted: zcv/refload.py tree construction and zcv/refdt.py conversions. Acceptance differences are C01's business.",
+    "random generation + reference value-tree model (differential oracle) + mutate-and-reload aliasing probe")
